@@ -377,13 +377,15 @@ structure SetOut where
 /-- The `d.update(flt)` call inside `filterSetProperties`: `flt2` is the list
 with the new URL / enabled flag already applied, `old` the list before the
 request.  On an error the deferred function restores URL, name, enabled flag,
-update time and rule count — NOT the checksum. -/
+update time and rule count — NOT the checksum.  As repaired by commit c5ab9db
+the engine is rebuilt also when the download brought nothing new, since the
+URL or the enabled flag changed. -/
 def setDownload (old flt2 : Flt) (changed : Bool) (f : Fetch) : SetOut :=
   match updateIntl flt2.checksum f with
   | some (c, k, out) => ⟨⟨true, c, k, some out⟩, changed, .ok true⟩
   | none =>
     if fetchFails f then ⟨⟨old.enabled, old.count, flt2.checksum, old.file⟩, false, .err⟩
-    else ⟨flt2, changed, .ok false⟩
+    else ⟨flt2, changed, .ok true⟩
 
 /-- `filterSetProperties` on the list found by its old URL. -/
 def setProps (flt : Flt) (rq : SetReq) (f : Fetch) : SetOut :=
